@@ -269,3 +269,62 @@ pub fn lpexport_event(case: &Value) -> Value {
     }
     ev
 }
+
+/// C15: solve_milp_lp_problem_with under time limits and MIP gaps.
+/// case["opts"] = [{"limit_ns": int|null, "gap": "none"|"nan"|"inf"|"-inf"|{"n","d"}}]
+pub fn limits_events(case: &Value, out: &mut Vec<Value>) {
+    let lm = lm_from_case(case);
+    for (k, opt) in case["opts"].as_array().unwrap().iter().enumerate() {
+        let mut ev = case.clone();
+        ev.as_object_mut().unwrap().remove("opts");
+        ev["id"] = json!(format!("{}/{}", case["id"].as_str().unwrap_or("?"), k));
+        ev["opt"] = opt.clone();
+        ev["entry"] = json!("milp_with");
+        let gap = match &opt["gap"] {
+            Value::String(s) if s == "none" => None,
+            Value::String(s) if s == "nan" => Some(f64::NAN),
+            Value::String(s) if s == "inf" => Some(f64::INFINITY),
+            Value::String(s) if s == "-inf" => Some(f64::NEG_INFINITY),
+            g => Some(g["n"].as_i64().unwrap() as f64 / g["d"].as_i64().unwrap() as f64),
+        };
+        let limit = opt["limit_ns"].as_u64().map(std::time::Duration::from_nanos);
+        let options = rooc::MilpOptions { mip_gap: gap, time_limit: limit };
+        let lmc = lm.clone();
+        let via_builder = opt["builder"].as_bool().unwrap_or(false);
+        let (tx, rx) = std::sync::mpsc::channel();
+        std::thread::Builder::new()
+            .stack_size(64 << 20)
+            .spawn(move || {
+                let res = catch_unwind(AssertUnwindSafe(|| {
+                    if via_builder {
+                        use rooc::Solver;
+                        let mut s = rooc::Microlp::new();
+                        if let Some(g) = options.mip_gap {
+                            s = s.with_mip_gap(g);
+                        }
+                        if let Some(l) = options.time_limit {
+                            s = s.with_time_limit(l);
+                        }
+                        s.solve(&lmc).map(|s| solution_obs(&s))
+                    } else {
+                        rooc::solve_milp_lp_problem_with(&lmc, &options).map(|s| solution_obs(&s))
+                    }
+                }));
+                let _ = tx.send(res.map_err(|_| ()));
+            })
+            .unwrap();
+        match rx.recv_timeout(std::time::Duration::from_secs(60)) {
+            Err(_) => ev["out"] = json!("timeout"),
+            Ok(Err(_)) => ev["out"] = json!("panic"),
+            Ok(Ok(Err(e))) => {
+                ev["out"] = json!("error");
+                ev["err"] = err_obs(&e);
+            }
+            Ok(Ok(Ok(sol))) => {
+                ev["out"] = json!("solution");
+                ev["sol"] = sol;
+            }
+        }
+        out.push(ev);
+    }
+}
